@@ -406,10 +406,13 @@ func (e *vlEnv) installVM(scripts map[string]*vlVM) {
 		case "rt":
 			return "", nil, "", cfee, errors.New("scripted runtime error")
 		case "sys":
-			return "", nil, "", cfee, contract.VerifSystemErr(errors.New("scripted system error"))
+			if len(sc.Transfers) == 0 && len(sc.Writes) == 0 {
+				return "", nil, "", cfee, contract.VerifSystemErr(errors.New("scripted system error"))
+			}
+			// otherwise: a system error AFTER partial effects; only the executor's rollback removes them
 		}
 		// all-or-nothing effects: the contract must be able to pay every transfer
-		if cfee.Sign() >= 0 {
+		if cfee.Sign() >= 0 && sc.Res == "ok" {
 			total := new(big.Int)
 			toSender := new(big.Int)
 			for _, tr := range sc.Transfers {
@@ -467,6 +470,9 @@ func (e *vlEnv) installVM(scripts map[string]*vlVM) {
 		}
 		for _, w := range sc.Writes {
 			cs.SetData([]byte(fmt.Sprintf("k%d", w[0])), big.NewInt(w[1]).Bytes())
+		}
+		if sc.Res == "sys" {
+			return "", nil, "", cfee, contract.VerifSystemErr(errors.New("scripted system error after effects"))
 		}
 		if kind == "create" {
 			cs.SetCode(nil, append([]byte("verif-code-"), id...))
